@@ -28,7 +28,7 @@ func (c12) ID() string { return "C12" }
 
 func (c12) Plan(tier string) fw.Plan {
 	p := fw.Plan{
-		Batches: 16, Cases: 4000, TimeoutSec: 900, Level: "exploration",
+		Batches: 16, Cases: 24000, TimeoutSec: 900, Level: "exploration",
 		Rule:        "one case = one legal assembler call sequence for a generated value on one target (basicnode Any/Map/List; bindnode and checked-in generated code (gendemo) for a struct, a typed map of structs, a renamed-representation struct, a {String:Any} map, at type and representation level), nested to depth ≤5, with the two pinned rejections injected at a random position: a repeated key (through AssembleEntry, AssembleKey().AssignString or AssembleKey().AssignNode; the repeated key is drawn from all earlier keys, so also after out-of-order keys) after which the sequence continues on the same assembler, or an assignment of a kind the position cannot hold (non-string into a key assembler, scalar/wrong recursive kind into Map/List/kind prototypes and typed fields) after which the sequence ends; plus Build→Reset→Build and abandon→Reset→Build sequences. Oracle: sequential model of the assembler contract — outcome class per call and read-out of Build() equal to the accepted entries. Non-trivial: an injection actually took place; distinct by hash of (target, value, injection).",
 		Assumptions: []string{"misuse call orders are never generated (the contract lets them panic)", "after a rejected *kind* nothing more is demanded than the error itself"},
 		MinEvents:   []string{"sequences", "repeated_key_injections", "wrong_kind_injections", "resets", "target:basicnode.Any", "target:bindnode.Msg3", "target:gendemo.Msg3", "target:gendemo.Map__String__Msg3", "target:bindnode.Map__String__Msg3"},
